@@ -174,6 +174,12 @@ class Ref:
             self.resize_wr(h, n, min(x.n, n) * x.e, d)
             if x.own:
                 x.stor = n > 0          # "If it is zero and the array is not a view, the effect equals sc_array_reset"
+        elif op == "regrow":
+            # sc_array_resize of a VIEW to a larger count inside its capacity, nothing written: the view shows its designated section
+            h, n = A(1), A(2); x = self.get(h)
+            need((not x.own) and n >= x.n and n * x.e <= x.cap)
+            x.n = n
+            self.rd(h, 0, n * x.e)
         elif op == "pushc":
             h, k, d = A(1), A(2), B(3); x = self.get(h); self.owner_free(h)
             need(k >= 0 and len(d) == k * x.e)
@@ -277,6 +283,15 @@ class Ref:
     def released_state(self):
         """what the documentation fixes about storage: (number of dynamically created structs, {handle: "v" | False | True | None})"""
         return (sum(1 for x in self.a.values() if x.dyn), dict((h, x.stor if x.own else "v") for h, x in self.a.items()))
+
+
+def diff_excerpt(a, b, width=150):
+    """the part of output line a around the first place where it differs from b (lines carry the bytes of all live arrays)"""
+    k = 0
+    while k < min(len(a), len(b)) and a[k] == b[k]:
+        k += 1
+    lo = max(0, k - 40)
+    return ("..." if lo else "") + a[lo:lo + width] + ("..." if lo + width < len(a) else "") + " (first difference at character %d)" % k
 
 
 def judge_released(extra, want):
@@ -1026,6 +1041,95 @@ def scripted_sizes():
     return out
 
 
+def scripted_regress():
+    """short histories of repaired findings, run first in both builds.  F-C08g: an owner grows inside its allocation after pop /
+    rewind (n > 0) left dropped elements in the spare bytes (the Debug build used to abort there)"""
+    out = []
+    for e in (1, 4, 128):
+        el = lambda i: hb(bytes([(i * 31 + j * 5 + 1) & 255 for j in range(e)]))
+        for ops in ([["init", 0, "0", "%x" % e], ["push", "0", el(0)], ["push", "0", el(1)], ["pop", "0"], ["resize", "0", "2", el(2)]],
+                    [["init", 1, "0", "%x" % e], ["resize", "0", "4", hb(b"".join(bytes.fromhex(el(i)) for i in range(4)))], ["rewind", "0", "2"],
+                     ["resize", "0", "3", el(5)], ["pop", "0"], ["pop", "0"], ["init", 0, "1", "%x" % e], ["push", "1", el(6)], ["push", "1", el(7)],
+                     ["copy", "0", "1"]]):
+            g = Gen(__import__("random").Random(3000 + e), 1 << 20, 0)
+            for t in ops:
+                if not g.emit(t):
+                    raise RuntimeError("scripted regression history: illegal step %r" % (t[:3],))
+            g.teardown()
+            out.append((g.ops, g.exp))
+    return out
+
+
+def scripted_views():
+    """one fixed history per element size class: every kind of view (init_view, new_view, init_data / new_data at a byte offset and with
+    another element size, init_reshape, a view of a view) on a parent whose elements differ in every byte is SHORTENED (rewind to a
+    smaller count, rewind 0, resize down) and grown again inside its capacity; after every call the PARENT's bytes (the user's
+    buffer of the data views) and the view's designated section are compared: shortening a view changes nothing but its count"""
+    out = []
+    H = lambda v: "%x" % v
+    for e in SIZE_CLASSES:
+        g = Gen(__import__("random").Random(2000 + e), 1 << 20, 0)
+
+        def must(t, g=g):
+            if not g.emit(t):
+                raise RuntimeError("scripted view history: illegal step %r" % (t[:4],))
+        n = 6 if e <= 1100 else 4
+        data = b"".join(bytes([(i * 41 + j * 13 + (j >> 7) * 3 + 2) & 255 for j in range(e)]) for i in range(n))
+        must(["initc", e % 4, "0", H(e), H(n), hb(data)])
+        l = n - 2
+        # 1. sc_array_init_view on [1, n-1)
+        must(["view", 0, "1", "0", "1", H(l)])
+        must(["rewind", "1", H(l - 2)])
+        must(["regrow", "1", H(l)])
+        must(["rewind", "1", "0"])
+        must(["index", "0", H(n - 2), "0"])
+        must(["regrow", "1", H(l)])
+        must(["resize", "1", "1", "-"])
+        must(["regrow", "1", H(l)])
+        must(["set", "1", H(l - 1), hb(bytes([0xEE]) * e)])
+        must(["abandon", "1"])
+        # 2. sc_array_new_view on the whole array
+        must(["view", 1, "1", "0", "0", H(n)])
+        must(["rewind", "1", H(n // 2)])
+        must(["rewind", "1", "0"])
+        must(["regrow", "1", H(n)])
+        must(["destroy", "1", "0"])
+        # 3. sc_array_init_data in the middle of the buffer (byte offset not a multiple of the element size)
+        bo = e // 2 + 1 if e > 1 else 1
+        must(["data", 0, "1", "0", H(bo), H(e), H(n - 2)])
+        must(["rewind", "1", "1"])
+        must(["regrow", "1", H(n - 2)])
+        must(["rewind", "1", "0"])
+        must(["reset", "1"])
+        must(["abandon", "1"])
+        # 4. sc_array_new_data with elements twice as large
+        must(["data", 1, "1", "0", "0", H(2 * e), H(n // 2)])
+        must(["rewind", "1", "1"])
+        must(["regrow", "1", H(n // 2)])
+        must(["destroy", "1", "1"])
+        # 5. sc_array_init_reshape
+        must(["reshape", "1", "0", H(2 * e), H(n // 2)])
+        must(["rewind", "1", "1"])
+        must(["rewind", "1", "0"])
+        must(["regrow", "1", H(n // 2)])
+        must(["abandon", "1"])
+        # 6. a view of a view
+        must(["view", 0, "1", "0", "1", H(l)])
+        must(["view", 1, "2", "1", "1", H(l - 1)])
+        must(["rewind", "2", "1"])
+        must(["rewind", "1", "1"])
+        must(["regrow", "2", H(l - 1)])
+        must(["regrow", "1", H(l)])
+        must(["rewind", "2", "0"])
+        must(["destroy", "2", "0"])
+        must(["rewind", "1", "0"])
+        must(["abandon", "1"])
+        must(["checksum", "0"])
+        g.teardown()
+        out.append((g.ops, g.exp))
+    return out
+
+
 # ----------------------------------------------------------------------------------------------------
 def case_text(hists):
     lines = []
@@ -1050,7 +1154,7 @@ def split_outputs(lines, hists):
 
 def run(ctx):
     import genall
-    st = genall.run(["Macros", "Array", "ArrayPermC08"])
+    st = genall.run(["Macros", "Array", "ArrayPermC08", "ArrayDebugC08"])
     for g, s in st.items():
         ctx.log("c2g", g, s)
         if s.startswith("FAILED"):
@@ -1061,107 +1165,125 @@ def run(ctx):
     # bytes of the elements), so the nonnull-attribute check is off; everything else of ASan/UBSan stays fatal.
     v = ctx.variant(mpi="off", san=True, cflags_extra=("-fno-sanitize=nonnull-attribute",))
     exe = ctx.cc([os.path.join(vlib.TOOLS, "harness", "c08_harness.c")], os.path.join(ctx.scratch, "c08_harness"), v)
+    # the same harness against libsc built with SC_ENABLE_DEBUG (assertions + the Debug build's own fills of spare storage)
+    vd = ctx.variant(mpi="off", san=True, debug=True, cflags_extra=("-fno-sanitize=nonnull-attribute",))
+    exed = ctx.cc([os.path.join(vlib.TOOLS, "harness", "c08_harness.c")], os.path.join(ctx.scratch, "c08_harness_dbg"), vd)
     nh = 600 if ctx.quick else 8000
-    hists = []
+    nhd = nh // 5
+    hists, dhists = [], []
     if ctx.replay:
         rp = json.load(open(ctx.replay)).get("replay", {})
         if "ops" in rp:
+            dbg = rp.get("variant") == "debug"
             g = Gen(ctx.rng, 1 << 30, 0)
             for t in rp["ops"]:
                 g.emit(t.split())
-            hists.append((g.ops, g.exp))
-    hists += scripted()
+            (dhists if dbg else hists).append((g.ops, g.exp))
+    hists += scripted_regress() + scripted()
     nscripted = len(hists)
-    hists += scripted_sizes()
+    hists += scripted_sizes() + scripted_views()
+    nfixed = len(hists)
     for _ in range(nh):
         hists.append(gen_history(ctx.rng, ctx.quick))
-    text = case_text(hists)
-    ctx.log("generated %d histories (%d scripted), %d bytes of input" % (len(hists), len(hists) - nh, len(text)))
+    # Debug build: all scripted histories (views, size classes / release, the push / pop / resize ladders) and a fifth as many random
+    # histories again, drawn like the others (owners grow by resize / copy / split after pop, rewind (n > 0) and truncate as well: F-C08g)
+    # (generated AFTER the others, so that these are the same with and without the debug run)
+    dhists += scripted_regress() + scripted_views() + scripted_sizes() + scripted()
+    for _ in range(nhd):
+        dhists.append(gen_history(ctx.rng, ctx.quick))
     env = dict(os.environ, ASAN_OPTIONS="detect_leaks=0:abort_on_error=0", UBSAN_OPTIONS="print_stacktrace=1")
-    # a call that does not return (endless loop) ends the output early: reported with the history that hangs
-    rc, impl, err = ctx.run_lines([exe], text, timeout=(150 if ctx.quick else 1500), env=env)
-    if rc == 124:
-        err += "\n[the harness did not finish within the time limit: the call after the last complete output line does not return]"
-    impl = [l for l in impl if l != ""]
-    # the released-state suffix is judged by the reference alone; the part in front of it is what model and reference predict
-    extra = [l.split(" | ", 1)[1] if " | " in l else None for l in impl]
-    impl = [l.split(" | ", 1)[0] for l in impl]
-    ctx.log("harness run done (exit %s)" % rc)
-    try:
-        mexe = ctx.model("c08")
-        rc2, model, err2 = ctx.run_lines([mexe], text, timeout=1500)
-        if rc2 != 0:
-            ctx.tie_broken("c08 model run", "exit %s: %s" % (rc2, err2[-1500:]))
-        model = [l for l in model if l != ""]
-    except vlib.BuildError as e:
-        ctx.tie_broken("c08 model build (model no longer compiles against the generated definitions)", str(e)[-1500:])
-        model = None
-    ctx.log("model run done")
-    io = split_outputs(impl, hists)
-    xo = split_outputs(extra, hists)
-    nrel = 0
-    mo = split_outputs(model, hists) if model is not None else None
-    dist, nviol, ndis, nops = {}, 0, 0, 0
-    cands = []          # failing histories; the three shortest are reported
+
+    dist, nviol, ndis, nops, nrel = {}, 0, 0, 0, 0
+    cands = []          # failing histories of both runs; the three shortest are reported
     sizes = []
-    ended = False
-    for hi, (ops, exp) in enumerate(hists):
-        if ended:          # the harness died in an earlier history: nothing was executed from here on
-            break
-        ctx.count_case(tuple(tuple(t) for t in ops), nontrivial=len(ops) > 2)
-        nops += len(ops)
-        sizes.append(len(ops))
-        for t in ops:
-            dist[t[0]] = dist.get(t[0], 0) + 1
-        want = ["H"] + exp + ["status 0"]
-        got = io[hi]
-        for li in range(len(want)):
-            rel = None
-            if got[li] == want[li] and 0 < li <= len(ops) and exp.st is not None:
-                nrel += 1
-                rel = judge_released(xo[hi][li] or "", exp.st[li - 1])
-            if rel is not None:
-                nviol += 1
-
-                def report(ops=ops, li=li, rel=rel, x=xo[hi][li]):
-                    upto = ops[:li]
-                    key = "hist-%s" % vlib.hashlib.md5(repr(upto).encode()).hexdigest()[:12]
-                    tail = " ; ".join(" ".join(t)[:28] for t in upto[-4:])
-                    ctx.violation(key, "history of %d ops ending [%s]: counts and bytes right, released state wrong: %s "
-                                  "[libsc: status h:owner/view:NULL/Ptr:Zero/Alloc = %s]" % (len(upto), tail, rel, x),
-                                  dict(ops=[" ".join(t) for t in upto], line=li, impl=x, expected=rel, stderr=""))
-                cands.append((li, len(cands), report))
-                ended = any(x is None for x in got)
+    for variant, hs, ex in (("release", hists, exe), ("debug", dhists, exed)):
+        text = case_text(hs)
+        ctx.log("%s build: %d histories, %d bytes of input" % (variant, len(hs), len(text)))
+        # a call that does not return (endless loop) ends the output early: reported with the history that hangs
+        rc, impl, err = ctx.run_lines([ex], text, timeout=(150 if ctx.quick else 1500), env=env)
+        if rc == 124:
+            err += "\n[the harness did not finish within the time limit: the call after the last complete output line does not return]"
+        impl = [l for l in impl if l != ""]
+        # the released-state suffix is judged by the reference alone; the part in front of it is what model and reference predict
+        extra = [l.split(" | ", 1)[1] if " | " in l else None for l in impl]
+        impl = [l.split(" | ", 1)[0] for l in impl]
+        ctx.log("%s build: harness run done (exit %s)" % (variant, rc))
+        model = None
+        if variant == "release":        # the extracted machine is compared with the release build; the Debug build is judged by the reference
+            try:
+                mexe = ctx.model("c08")
+                rc2, model, err2 = ctx.run_lines([mexe], text, timeout=1500)
+                if rc2 != 0:
+                    ctx.tie_broken("c08 model run", "exit %s: %s" % (rc2, err2[-1500:]))
+                model = [l for l in model if l != ""]
+            except vlib.BuildError as e:
+                ctx.tie_broken("c08 model build (model no longer compiles against the generated definitions)", str(e)[-1500:])
+                model = None
+            ctx.log("model run done")
+        io = split_outputs(impl, hs)
+        xo = split_outputs(extra, hs)
+        mo = split_outputs(model, hs) if model is not None else None
+        ended = False
+        nv0 = nviol
+        tag = "" if variant == "release" else "[libsc built with SC_ENABLE_DEBUG] "
+        for hi, (ops, exp) in enumerate(hs):
+            if ended:          # the harness died in an earlier history: nothing was executed from here on
                 break
-            if got[li] != want[li]:
-                nviol += 1
-
-                def report(ops=ops, li=li, g=got[li], w=want[li]):
-                    upto = ops[:li] if li <= len(ops) else ops
-                    what = "end of output (crash or call that does not return)" if g is None else g[:200]
-                    detail = err[-1200:] if g is None else ""
-                    key = "hist-%s" % vlib.hashlib.md5(repr(upto).encode()).hexdigest()[:12]
-                    ctx.violation(key, "history of %d ops: after op #%d (%s) libsc shows [%s], the reference sequence gives [%s] %s" % (
-                        len(upto), li, " ".join(ops[li - 1])[:80] if 0 < li <= len(ops) else "E", what, w[:200], detail),
-                        dict(ops=[" ".join(t) for t in upto], line=li, impl=g, expected=w, stderr=detail))
-                cands.append((li, len(cands), report))
-                # the harness died later in this same history: after a first difference the following calls need not be legal any more
-                ended = any(x is None for x in got)
-                break
-        if mo is not None and not ended:
-            m = mo[hi]
+            ctx.count_case((variant,) + tuple(tuple(t) for t in ops), nontrivial=len(ops) > 2)
+            nops += len(ops)
+            sizes.append(len(ops))
+            for t in ops:
+                dist[t[0]] = dist.get(t[0], 0) + 1
+            want = ["H"] + exp + ["status 0"]
+            got = io[hi]
             for li in range(len(want)):
-                if got[li] != m[li]:
-                    ndis += 1
-                    if ndis <= 3:
-                        ctx.tie_broken("model/implementation disagreement", "history #%d op #%d (%s): C [%s] model [%s]; ops: %s" % (
-                            hi, li, " ".join(ops[li - 1])[:80] if 0 < li <= len(ops) else "E", str(got[li])[:160], str(m[li])[:160],
-                            " | ".join(" ".join(t)[:60] for t in ops[:li][-12:])))
+                rel = None
+                if got[li] == want[li] and 0 < li <= len(ops) and exp.st is not None:
+                    nrel += 1
+                    rel = judge_released(xo[hi][li] or "", exp.st[li - 1])
+                if rel is not None:
+                    nviol += 1
+
+                    def report(ops=ops, li=li, rel=rel, x=xo[hi][li], tag=tag, variant=variant):
+                        upto = ops[:li]
+                        key = "hist-%s" % vlib.hashlib.md5(repr(upto).encode()).hexdigest()[:12]
+                        tail = " ; ".join(" ".join(t)[:28] for t in upto[-4:])
+                        ctx.violation(key, "%shistory of %d ops ending [%s]: counts and bytes right, released state wrong: %s "
+                                      "[libsc: status h:owner/view:NULL/Ptr:Zero/Alloc = %s]" % (tag, len(upto), tail, rel, x),
+                                      dict(ops=[" ".join(t) for t in upto], line=li, impl=x, expected=rel, stderr="", variant=variant))
+                    cands.append((li, len(cands), report))
+                    ended = any(x is None for x in got)
                     break
+                if got[li] != want[li]:
+                    nviol += 1
+
+                    def report(ops=ops, li=li, g=got[li], w=want[li], err=err, tag=tag, variant=variant):
+                        upto = ops[:li] if li <= len(ops) else ops
+                        what = "end of output (crash, failed assertion or call that does not return)" if g is None else g[:200]
+                        detail = err[-1200:] if g is None else ""
+                        key = "hist-%s" % vlib.hashlib.md5(repr(upto).encode()).hexdigest()[:12]
+                        tail = " ; ".join(" ".join(t)[:28] for t in upto[-4:])
+                        ctx.violation(key, "%shistory of %d ops ending [%s]: after op #%d libsc shows [%s], the reference sequence gives [%s] %s" % (
+                            tag, len(upto), tail, li, diff_excerpt(what, w) if g is not None else what, diff_excerpt(w, what) if g is not None else w[:160], detail),
+                            dict(ops=[" ".join(t) for t in upto], line=li, impl=g, expected=w, stderr=detail, variant=variant))
+                    cands.append((li, len(cands), report))
+                    # the harness died later in this same history: after a first difference the following calls need not be legal any more
+                    ended = any(x is None for x in got)
+                    break
+            if mo is not None and not ended:
+                m = mo[hi]
+                for li in range(len(want)):
+                    if got[li] != m[li]:
+                        ndis += 1
+                        if ndis <= 3:
+                            ctx.tie_broken("model/implementation disagreement", "history #%d op #%d (%s): C [%s] model [%s]; ops: %s" % (
+                                hi, li, " ".join(ops[li - 1])[:80] if 0 < li <= len(ops) else "E", str(got[li])[:160], str(m[li])[:160],
+                                " | ".join(" ".join(t)[:60] for t in ops[:li][-12:])))
+                        break
+        if rc != 0 and nviol == nv0:
+            ctx.tie_broken("c08 harness run (%s build)" % variant, "exit %s: %s" % (rc, err[-1500:]))
     for _, _, report in sorted(cands, key=lambda c: c[:2])[:3]:
         report()
-    if rc != 0 and nviol == 0:
-        ctx.tie_broken("c08 harness run", "exit %s: %s" % (rc, err[-1500:]))
     ctx.cov["disagreements_checked"] = nops
     ctx.cov["rule"] = ("a case is one history (create ... teardown) of array operations; every line (result of the call + count and bytes of "
                        "ALL live arrays) is compared between libsc, the extracted model and the reference sequence, and the released state of all live arrays "
@@ -1191,10 +1313,17 @@ def run(ctx):
                                        "move_part; byte alphabets 2,3,4,16,256 (duplicates for uniq/bsearch/is_equal); teardown at the end of every history"
                                        % (len(SIZE_CLASSES), ",".join(str(e) for e in SIZE_CLASSES), ",".join(str(e) for e in BIGSIZES)))
     ctx.notes["model_disagreements"] = ndis
+    ctx.notes["debug_build"] = ("%d histories are run a second way, on libsc built with SC_ENABLE_DEBUG (assertions + the Debug build's fills of spare "
+                                "storage), judged by the same reference (bytes below elem_count of owners, designated section of views, parents; released state): "
+                                "%d scripted view histories (one per size class: init_view, new_view, init_data / new_data at a byte offset / other element size, "
+                                "init_reshape, view of a view; rewind to a smaller count and to 0, resize down, regrow inside the capacity, parent inspected "
+                                "after every call), the %d scripted size-class / release histories, the 4 push / pop / resize ladders (growth inside the allocation "
+                                "after pops), %d random histories drawn like those of the release run"
+                                % (len(dhists), len(SIZE_CLASSES), len(SIZE_CLASSES), nhd))
     ctx.notes["released_state_judgements"] = nrel
-    for ops, _ in hists[nscripted + len(SIZE_CLASSES):nscripted + len(SIZE_CLASSES) + 5]:
+    for ops, _ in hists[nfixed:nfixed + 5]:
         ctx.sample({"history": " ; ".join(" ".join(t)[:40] for t in ops[:6])})
-    ctx.cov["trusted_base"] = ["tools/c2g translator (+ slicelib conventions for Gen/ArrayPermC08.v: memcpy calls as ghost outputs in source order, newind[x] as a location) and clang-14's JSON AST for Gen/Array.v (exercised by the correspondence run: the model computes every decision with the generated functions)",
+    ctx.cov["trusted_base"] = ["tools/c2g translator (+ slicelib conventions for Gen/ArrayDebugC08.v [SC_ASSERT dropped = executions that do not abort, calls as ghost outputs] and Gen/ArrayPermC08.v: memcpy calls as ghost outputs in source order, newind[x] as a location) and clang-14's JSON AST for Gen/Array.v (exercised by the correspondence run: the model computes every decision with the generated functions)",
                                "libc qsort/bsearch and zlib adler32 are Section variables with their contracts as hypotheses; the run uses memcmp as comparison",
                                "memory effects of sc_malloc/sc_realloc/sc_free as modelled in ArrayModel.v (fresh block, min(old,new) bytes copied, junk tail)"]
     ctx.assumptions += ["histories satisfy the documented preconditions (legal_step): no resize of an owner with live views, no memcpy overlap, indices in range, byte sizes <= 2^62",
